@@ -105,6 +105,20 @@ def tryChangeViewV0 (tol : Int) (n me : Nat) (s : VState) (now : Int) : Option V
 def tryChangeViewV1 (tol : Int) (n me : Nat) (s : VState) (now : Int) : Option VState :=
   if now > s.start + tol then changeViewV1 n me s now else some s
 
+/-! ### the layer above: `Consensus` (dpos/manager/consensus.go) picks the schedule by height -/
+
+/-- `Consensus.ChangeView`: V0 below `ChangeViewV1Height`, V1 from it on. -/
+def consChangeView (forkH height : Nat) (tol : Int) (n me : Nat) (s : VState) (now : Int) : Option VState :=
+  if height < forkH then changeViewV0 tol n me s now else changeViewV1 n me s now
+
+/-- `Consensus.TryChangeView`: nothing unless the consensus is running, then the `Try*` variant of
+    the schedule selected by the same height test. -/
+def consTryChangeView (forkH height : Nat) (running : Bool) (tol : Int) (n me : Nat) (s : VState) (now : Int) :
+    Option VState :=
+  if running then
+    if height < forkH then tryChangeViewV0 tol n me s now else tryChangeViewV1 tol n me s now
+  else some s
+
 /-- a polling schedule: evaluate at each of the given times in turn. -/
 def pollAll (step : VState → Int → Option VState) : VState → List Int → Option VState
   | s, [] => some s
